@@ -3,6 +3,7 @@ package main
 import (
 	"go/types"
 	"sort"
+	"strings"
 
 	"golang.org/x/tools/go/ssa"
 )
@@ -87,7 +88,12 @@ func extName(fn *ssa.Function) string {
 	}
 	if obj := fn.Object(); obj != nil {
 		if f, ok := obj.(*types.Func); ok {
-			return f.FullName()
+			full := f.FullName()
+			if old, ok := renamedFuncs[fn]; ok {
+				// a renamed function keeps the qualified name it was confirmed under
+				full = strings.TrimSuffix(full, "."+f.Name()) + old[strings.LastIndex(old, "."):]
+			}
+			return full
 		}
 	}
 	return fn.String()
